@@ -192,7 +192,7 @@ obl('C06.SEND', FQ + 'Channel::send', 'from every invariant state (frozen env): 
 obl('C06.RECV', FQ + 'Channel::recv', 'from every invariant state (frozen env): oldest value returned, order of the rest kept, slot freed, None iff nothing queued', also=['C10'])
 obl('C06.FULL-ONLY-WHEN-5', FQ + 'Channel::send', 'a send is discarded only if it observed the free queue empty (5 indices queued or in flight)')
 obl('C06.EMPTY-ONLY-WHEN-EMPTY', FQ + 'Channel::recv', 'None only if it observed the full queue empty')
-obl('C06.ATOMIC', FQ + 'enqueue, dequeue, send, recv', 'under arbitrary interference: every effect on a queue word is one successful CAS that is a pop-front/push-back of the expected value; a call has exactly the pops/pushes of its specification', also=['C07', 'C08'])
+obl('C06.ATOMIC', FQ + 'enqueue, dequeue, send, recv', 'under arbitrary interference: every effect on a queue word is one successful CAS that is a pop-front/push-back of the expected value; a call has exactly the pops/pushes of its specification', also=['C07', 'C08', 'C10'])
 obl('C06.OWN', FQ + 'enqueue', 'only an index this operation owns is enqueued', also=['C07', 'C08'])
 obl('C06.G-INV', FQ + 'send, recv', 'every step of the code preserves the channel invariant (well-formed words, disjoint index sets, full => cell Some)', also=['C07', 'C08'])
 obl('C06.NO-STORE', FQ + 'all', 'no plain store/swap on a queue word', never=True, absent_ok=r'Atomic :: < u16 > :: store -> u16_store')
